@@ -10,6 +10,7 @@ from ...schema import (
     EnumType,
     GraphQLType,
     InputObjectType,
+    ListType,
     NonNullType,
     ScalarType,
     unwrap_type,
@@ -93,6 +94,27 @@ class ValuesOfCorrectTypeChecker(ValidationVisitor):
                 input_type.get_value(node.value)
             except UnknownEnumValue:
                 self._report_bad_value(input_type, node)
+
+    def enter_list_value(self, node):
+        # The type info visitor has already pushed the item type, the type
+        # expected at the list's own position is one level below.
+        stack = self.type_info._input_type_stack
+        input_type = stack[-2] if len(stack) > 1 else None
+        if input_type is None:
+            return
+
+        nullable_type = (
+            input_type.type if isinstance(input_type, NonNullType) else input_type
+        )
+        # Custom scalars are free to accept list literals.
+        if isinstance(nullable_type, ListType) or (
+            isinstance(nullable_type, ScalarType)
+            and nullable_type not in SPECIFIED_SCALAR_TYPES
+        ):
+            return
+
+        self._report_bad_value(input_type, node)
+        raise SkipNode()
 
     def enter_object_value(self, node):
         named_type = (
